@@ -50,6 +50,11 @@ theorem register_fresh (s s' : Est α) (op : RegOp α) (h : Fresh s) (hr : s.reg
     split at hr
     · simp at hr
     · simp only [Option.some.injEq] at hr; subst hr; simp [h]
+  | fitInternal pred =>
+    simp only [Est.register] at hr
+    split at hr
+    · simp only [Option.some.injEq] at hr; subst hr; simp [h]
+    · simp at hr
 
 /-- **C14 (no stale cache, any history)**: after every sequence of registration calls, of any length,
     the stored matrix is the capture of the currently registered sources. -/
@@ -72,7 +77,7 @@ theorem run_fresh (ops : List (RegOp α)) : ∀ (s s' : Est α), Fresh s → s.r
 theorem answer_factors (s : Est α) (h : Fresh s) (q : Query α) : s.answer q = s.abs.answer q := by
   unfold Fresh at h
   cases s with
-  | mk filters dom K baseline sources A lb ub targets w W =>
+  | mk filters dom K baseline sources A lb ub targets w W workB =>
     simp only at h
     subst h
     rfl
@@ -116,7 +121,8 @@ theorem system_adaptation_replaces (s : Est α) (A : List (List α)) (hA : s.A =
 /-- `register_targets(B, W)` replaces the targets AND the fitting weights: the given `W`, or — when `W` is not given —
     the constructor's weights `w`, whatever weights an earlier `register_targets` call had stored. -/
 theorem targets_replaces (s : Est α) (A : List (List α)) (hA : s.A = some A) (B : List (List α)) (W : Option (Weights α)) :
-    (s.register (.targets B W)).map Est.abs = some { s.abs with targets := some B, W := W.getD (.vec s.w) } := by
+    (s.register (.targets B W)).map Est.abs =
+      some { s.abs with targets := some B, W := W.getD (.vec s.w), workB := some B } := by
   simp [Est.register, Est.abs, hA]
 
 /-- weights of an earlier target registration never survive a later one (history: `targets B₁ W₁ ; targets B₂`) -/
@@ -124,6 +130,27 @@ theorem targets_weights_not_sticky (s : Est α) (A : List (List α)) (hA : s.A =
     ((s.register (.targets B1 (some W1))).bind (·.register (.targets B2 none))).map Est.abs
       = (s.register (.targets B2 none)).map Est.abs := by
   simp [Est.register, Est.abs, hA]
+
+/-- `fit()` of the registered targets stores the fitted capture in the working copy and changes nothing else
+    (the registered targets, the weights and everything a gamut or capture query reads stay as they were) -/
+theorem fit_changes_only_work (s : Est α) (A B0 : List (List α)) (hA : s.A = some A) (hB : s.workB = some B0)
+    (pred : List (List α)) :
+    (s.register (.fitInternal pred)).map Est.abs = some { s.abs with workB := some pred } := by
+  simp [Est.register, Est.abs, hA, hB]
+
+/-- **a fit leaves no trace after re-registration**: `register_targets(B₁, W₁); fit(); register_targets(B₂, W₂)` ends in exactly
+    the state of `register_targets(B₂, W₂)` alone — for every `B₂`, in particular for `B₂ = B₁` (re-registering the same targets
+    with other weights after a fit must reset the working copy to the targets). -/
+theorem targets_after_fit (s : Est α) (A : List (List α)) (hA : s.A = some A) (B1 B2 pred : List (List α))
+    (W1 W2 : Option (Weights α)) :
+    (((s.register (.targets B1 W1)).bind (·.register (.fitInternal pred))).bind (·.register (.targets B2 W2))).map Est.abs
+      = (s.register (.targets B2 W2)).map Est.abs := by
+  simp [Est.register, Est.abs, hA]
+
+/-- `fit()` without registered targets (or without a system) asserts -/
+theorem fit_requires_targets (s : Est α) (h : s.workB = none) (pred : List (List α)) :
+    s.register (.fitInternal pred) = none := by
+  cases hA : s.A <;> simp [Est.register, hA, h]
 
 /-- the constructor's weights are never changed by any registration call -/
 theorem register_keeps_w (s s' : Est α) (op : RegOp α) (hr : s.register op = some s') : s'.w = s.w := by
